@@ -82,8 +82,12 @@ class STimedelta:
         self.us = us
 
     def __add__(s, o):
-        o = td_us(o)
-        return NotImplemented if o is NotImplemented else make_timedelta(s.us + o)
+        t = td_us(o)
+        if t is not NotImplemented:
+            return make_timedelta(s.us + t)
+        if isinstance(o, (real_datetime, SDatetime)):
+            return make_datetime(dt_us(o) + s.us)
+        return NotImplemented
     __radd__ = __add__
 
     def __sub__(s, o):
@@ -91,8 +95,12 @@ class STimedelta:
         return NotImplemented if o is NotImplemented else make_timedelta(s.us - o)
 
     def __rsub__(s, o):
-        o = td_us(o)
-        return NotImplemented if o is NotImplemented else make_timedelta(o - s.us)
+        t = td_us(o)
+        if t is not NotImplemented:
+            return make_timedelta(t - s.us)
+        if isinstance(o, (real_datetime, SDatetime)):
+            return make_datetime(dt_us(o) - s.us)
+        return NotImplemented
 
     def __neg__(s): return STimedelta(-s.us)
     def __pos__(s): return s
